@@ -60,6 +60,8 @@ TRUSTED_EXTRA = ["oracle contracts: np.random.rand/random.random in [0,1), rando
 
 def regenerate(ctx: Ctx) -> None:
     ctx.gen_status.update(tr_moves.regenerate())
+    from translate import transcripts as _tr
+    ctx.gen_status.update(_tr.constructor_wiring(['StandardPerturbation', 'AtomicPerturbation', 'MolecularPerturbation']))
 
 
 # ----------------------------------------------------------------------------- helpers
